@@ -114,7 +114,7 @@ package node
 // a block is signed only by a member of the validator set of ITS round: the set consulted is the store's set for the
 // block's round-received (not the running latest set, which already holds a joiner before its round)
 //@   call GetPeerSet#1 assert[round-set-consulted] __arg(0) == block.Body.RoundReceived
-//@   call signBlock assert[member-of-round-set] __called("GetPeerSet") && __lastret("GetPeerSet", 1) == nil && blockPeerSet == hg.G_pset(c.hg.Store)[block.Body.RoundReceived]
+//@   call signBlock assert[member-of-round-set] __called("GetPeerSet") && blockPeerSet == hg.G_pset(c.hg.Store)[block.Body.RoundReceived]
 //@   call signBlock assert[sign-after-commit] __called("proxyCommitCallback") && __lastret("proxyCommitCallback", 1) == nil && __eq(block.Body.StateHash, commitResponse.StateHash) && __eq(block.Body.InternalTransactionReceipts, commitResponse.InternalTransactionReceipts)
 //@   ensures[stored]    ret0 == nil && __called("proxyCommitCallback") && __lastret("proxyCommitCallback", 1) == nil ==> __eq(hg.G_bodies(c.hg.Store)[block.Body.Index], block.Body)
 //@   ensures[state]     __called("proxyCommitCallback") && __lastret("proxyCommitCallback", 1) == nil ==> __eq(block.Body.StateHash, commitResponse.StateHash) && __eq(block.Body.InternalTransactionReceipts, commitResponse.InternalTransactionReceipts)
